@@ -58,13 +58,20 @@ func c12Check(src string, intact int) (domain bool, kind, detail string) {
 	// strictness is a property of the parser builder: a sibling builder that shares the lexer builder and is
 	// tolerant / smart, or the same builder having been tolerant before, must not make this one lenient
 	{
+		// (i) a tolerant + smart sibling on the same lexer builder, configured before and used before
 		lb := lexer.NewBuilder()
-		parser.NewBuilder(lb).WithTolerantMode(true).WithSmartSemicolon(true).Build("a").ParseProgram()
+		sib := parser.NewBuilder(lb).WithTolerantMode(true).WithSmartSemicolon(true)
+		sib.Build("a").ParseProgram()
 		pbS := parser.NewBuilder(lb)
-		pbS.WithTolerantMode(true).Build("{ a").ParseProgram()
-		pbS.WithTolerantMode(false)
 		if o2 := parseWith(pbS, src); o2.Panic == "" && (o2.Err == nil || len(o2.Errs) == 0) {
-			return true, "accepted-with-history", fmt.Sprintf("malformed text %q accepted without error by a strict builder that shares its lexer builder with a tolerant one and was itself tolerant before", src)
+			return true, "accepted-with-tolerant-sibling", fmt.Sprintf("malformed text %q accepted without error by a strict parser builder whose lexer builder is shared with a tolerant parser builder", src)
+		}
+		// (ii) the same builder was tolerant before and is strict again
+		pbT := parser.NewBuilder(lexer.NewBuilder())
+		pbT.WithTolerantMode(true).Build("{ a").ParseProgram()
+		pbT.WithTolerantMode(false)
+		if o3 := parseWith(pbT, src); o3.Panic == "" && (o3.Err == nil || len(o3.Errs) == 0) {
+			return true, "accepted-after-tolerant-phase", fmt.Sprintf("malformed text %q accepted without error by a builder that was tolerant before and is strict again", src)
 		}
 	}
 	e := o.Errs[0]
@@ -125,7 +132,7 @@ func c12Faults(c *core.Ctx, src string, report func(fault, corrupted string, int
 }
 
 func c12Run(c *core.Ctx) {
-	processWarmup()
+	processWarmup(c)
 	nValid := 0
 	seen := func(fault, orig string) func(string, string, int) {
 		return nil
